@@ -102,9 +102,17 @@ def run(ctx):
     for n in (63, 64, 65, 66, 80, 200):
         pool += ["a" * (n - 2) + "\t" + "b", "\x1b" + "z" * (n - 1), "k" * (n - 1) + "\x7f", "q" * (n - 3) + "\x00\x1f ",
                  "a" * (n - 1) + "̀", "あ" * (n // 2) + "x" * (n - n // 2), " " * n]
+    # extensions: a string measured after a neighbour of it (the same text plus / minus leading or trailing characters
+    # that are not one cell wide: U+3000 is 2 cells; tab, LF, CR, U+001C-U+001F, U+0085, combining marks are 0), so a
+    # cache that confuses a string with its stripped / trimmed form is seen (seeded change C13-f2)
+    ext = ["\u3000", "\t", "\n", "\r", "\x1c", "\x1f", "\x85", " ", "\u3000 ", " \u3000", "\u200b", "̀", "\x0b\x0c"]
     for _ in range(n_hist):
         cap = rng.choice([1, 2, 3, 4, 8])
         calls = [rng.choice(pool) for _ in range(rng.randint(1, 14))]
+        for i in range(1, len(calls)):
+            if rng.random() < 0.3:
+                base, e = calls[rng.randrange(i)], rng.choice(ext)
+                calls[i] = rng.choice([base + e, e + base, base + e + e, base.rstrip(), base.strip(), base[:-1], base[1:]])
         cache = LRUCache(cap)
         got = [cells.cell_len(c, cache) for c in calls]
         want = [sum(ref[ord(ch)] for ch in c) for c in calls]
@@ -114,6 +122,11 @@ def run(ctx):
     for s in pool:  # the real, shared cache, whatever is in it by now
         ctx.check(cells.cell_len(s) == sum(ref[ord(ch)] for ch in s), "cell_len", s, "cell_len differs from the sum of character widths")
         ctx.case("cell_len", [enc_str(s)], cells.cell_len(s))
+    for base in ["名前", "ab", "あ", "x y", "", "à"]:  # the real cache again: a text, then the text with non-one-cell whitespace around it
+        for e in ext:
+            for t in (base, base + e, e + base, base + e + e):
+                ctx.check(cells.cell_len(t) == sum(ref[ord(ch)] for ch in t), "cell_len", (base, t), "cell_len (shared cache, after measuring a neighbouring string) differs from the sum of character widths")
+                ctx.case("cell_len", [enc_str(t)], cells.cell_len(t))
 
     # ---- 3. set_cell_size / chop_cells
     maxlen = 5 if ctx.quick else 7
@@ -148,6 +161,8 @@ def run(ctx):
     enc = Enc()
     styles = enc.styles
     texts = ["", "a", "ab", "あ", "aあ", "\n", "a\n", "\nb", "a\nb", "あ\n\n", "̀", " ", "a\nb\nc", "😽x"]
+    # the other characters str.splitlines() breaks on: only "\n" ends a line for rich (seeded change C13-f3)
+    texts += ["a\rb\nc", "\r\n", "x\x0b\n", "\x0c", "a\x1cb\nc", "\x1d\x1e\n", "\x85\n", "a\u2028b\n", "\u2029", "\n\r"]
 
     def rand_seg():
         ctl = rng.random() < 0.15
@@ -300,7 +315,9 @@ def run(ctx):
     ctx.rule = (
         "all 1,114,112 code points (exhaustive) + every string <= %d over %r x sizes 0..12 / widths 1..6 x positions "
         "+ seeded random cell_len histories (1..14 calls, LRUCache capacity 1/2/3/4/8) over a pool of every string <= 3 plus "
-        "strings of 63..200 characters of every width class (incl. ASCII control characters in plain ASCII text) "
+        "strings of 63..200 characters of every width class (incl. ASCII control characters in plain ASCII text), 30%% of the calls a "
+        "neighbour of an earlier call (the same text with U+3000 / tab / LF / CR / U+001C-1F / U+0085 / zero-width characters added or "
+        "whitespace stripped at either end); segment texts include every character str.splitlines() breaks on besides LF "
         "+ seeded random segment lists (<=4 segments over %d texts, 4 styles, control flags) x length 0..8 x pad x style "
         "+ seeded random segment lists with duck-typed styles (5 style values) for apply_style / filter_control / strip_styles / "
         "strip_links / remove_color / get_shape; "
